@@ -14,8 +14,8 @@ import (
 
 func init() {
 	rule := "sessions on a real connection with state tracking on: welcome line (assigning a different nick), own JOIN, then 20..300 TOPIC lines each carrying its wire index, 1..3 foreground and 0..2 background handlers with seeded durations (Gosched / sleeps), some panicking with string / error / nil-deref / custom values, optionally a background handler that never returns, byte stream chunked into reads of 1 / 7 / 64 / unlimited bytes with some lines longer than the 4096-byte read buffer, GOMAXPROCS 1/2/4/16, Close at the end; every handler logs entry/exit with the topic it reads from the tracker; the history is judged by Spec.Dispatch (evaluated by the driver), invocation counts of well-behaved handlers and calls of the recovery hook are checked; non-trivial = every completed session; distinct by parameters"
-	register("C03", rule, func(c *Ctx) { c03(c, "C03") })
-	register("C05", rule, func(c *Ctx) { c03(c, "C05") })
+	register("C03", rule+"; plus reconnect scenarios: connection A is ended (Close / EOF) while its first foreground handler is still running and another goroutine calls Connect at once; the lines of the next connection are later lines, so Spec.Dispatch is evaluated on the history across the reconnect, and on A's history up to its DISCONNECTED", func(c *Ctx) { c03(c, "C03") })
+	register("C05", rule+"; plus teardown scenarios (Close / EOF / read error) fired while the state handler of the client's own JOIN is blocked on a full send queue: every user handler that runs for the JOIN must find the client on the channel", func(c *Ctx) { c03(c, "C05") })
 	register("C16", rule, func(c *Ctx) { c03(c, "C16") })
 }
 
@@ -31,6 +31,7 @@ type dispParams struct {
 	Panics, StuckBg, DefaultRecover bool
 	LongLines                       bool
 	Seed                            uint64
+	Prop                            string
 }
 
 func dispatchSession(c *Ctx, p dispParams) {
@@ -195,12 +196,17 @@ func dispatchSession(c *Ctx, p dispParams) {
 	synced := sess.sync(30 * time.Second)
 	// background handlers are detached: give the last ones a moment, bounded, before closing
 	time.Sleep(3 * time.Millisecond)
-	sess.close()
-	waitFor(func() bool {
+	closed := sess.close()
+	gotD := waitFor(func() bool {
 		lg.mu.Lock()
 		defer lg.mu.Unlock()
 		return len(lg.evs) > 0 && lg.evs[len(lg.evs)-1] == "D"
-	}, time.Second)
+	}, 2*time.Second)
+	if p.Prop == "C16" && synced && (!closed || !gotD) {
+		// DISCONNECTED is a later event too: neither a panicking handler nor a background handler that never
+		// returns may keep it from the foreground handler
+		c.SpecFail("spec", desc, "", fmt.Sprintf("Close() returned within 10s: %v; DISCONNECTED reached the foreground handler: %v (background handler that never returns registered: %v)", closed, gotD, p.StuckBg), rp)
+	}
 	lg.mu.Lock()
 	evs := append([]string(nil), lg.evs...)
 	lg.mu.Unlock()
@@ -262,15 +268,228 @@ func dispatchSession(c *Ctx, p dispParams) {
 	c.RunCases([]Case{{Desc: desc, Spec: []string{"spec03 " + strings.Join(toks, ",")}, Tag: "session", Key: desc, Replay: map[string]interface{}{"op": "dispatch-session", "params": p, "log_head": toks[:min(len(toks), 60)]}}})
 }
 
+// c03Reconnect: a slow foreground handler of connection A is still running when A is closed, and another goroutine
+// calls Connect on the same client meanwhile. Lines of the next connection B count as later lines: none of their
+// handlers may start before A's handler has finished, and A's DISCONNECTED comes after all of A's handler invocations.
+func c03Reconnect(c *Ctx) {
+	for i := 0; i < c.Pick(4, 40); i++ {
+		nA, nB := c.R.Range(1, 6), c.R.Range(3, 30)
+		cause := c.R.Pick("close", "eof")
+		desc := fmt.Sprintf("reconnect while a handler of the old connection is still running: %d lines on A (the first handler blocks), A ended by %s, Connect from another goroutine, %d lines on B", nA, cause, nB)
+		c.Journal(desc)
+		rp := map[string]interface{}{"op": "reconnect-during-handler", "lines_a": nA, "lines_b": nB, "cause": cause}
+		lg := &obsLog{}
+		gate := make(chan struct{})
+		sess, err := newSession(nil, func(cn *client.Conn) {
+			cn.HandleFunc("PRIVMSG", func(_ *client.Conn, l *client.Line) {
+				k, _ := strconv.Atoi(l.Text())
+				lg.add(fmt.Sprintf("E:%d:0:%d", k, k+1))
+				if k == 0 {
+					<-gate
+				}
+				runtime.Gosched()
+				lg.add(fmt.Sprintf("X:%d:0:%d", k, k+1))
+			})
+			cn.HandleFunc(client.DISCONNECTED, func(*client.Conn, *client.Line) { lg.add("D") })
+		})
+		if err != nil {
+			c.Res.Inconclusive++
+			continue
+		}
+		conn := sess.conn
+		for k := 0; k < nA; k++ {
+			sess.srv.SendLine(fmt.Sprintf(":n!u@h PRIVMSG me :%d", k))
+		}
+		entered := waitFor(func() bool { lg.mu.Lock(); defer lg.mu.Unlock(); return len(lg.evs) > 0 }, 2*time.Second)
+		if cause == "close" {
+			go conn.Close()
+		} else {
+			sess.srv.EOF()
+		}
+		time.Sleep(3 * time.Millisecond)
+		connErr := make(chan error, 1)
+		go func() { // e.g. a watchdog that reconnects as soon as Connected() is false
+			waitFor(func() bool { return !conn.Connected() }, 2*time.Second)
+			connErr <- conn.Connect()
+		}()
+		var srvB = sess.srv
+		gotB := false
+		select {
+		case srvB = <-sess.conns: // the new connection exists although A's handler has not returned
+			gotB = true
+			for k := 0; k < nB; k++ {
+				srvB.SendLine(fmt.Sprintf(":n!u@h PRIVMSG me :%d", nA+k))
+			}
+			time.Sleep(20 * time.Millisecond)
+		case <-time.After(30 * time.Millisecond):
+		}
+		close(gate)
+		if !gotB {
+			select {
+			case srvB = <-sess.conns:
+				gotB = true
+				for k := 0; k < nB; k++ {
+					srvB.SendLine(fmt.Sprintf(":n!u@h PRIVMSG me :%d", nA+k))
+				}
+			case <-time.After(5 * time.Second):
+			}
+		}
+		if gotB {
+			s2 := &session{conn: conn, srv: srvB}
+			s2.sync(5 * time.Second)
+			s2.close()
+		}
+		select {
+		case <-connErr:
+		case <-time.After(5 * time.Second):
+		}
+		time.Sleep(5 * time.Millisecond)
+		lg.mu.Lock()
+		evs := append([]string(nil), lg.evs...)
+		lg.mu.Unlock()
+		c.Res.Traces++
+		if !entered || !gotB {
+			c.Res.Inconclusive++
+			c.Dist("reconnect-during-handler/inconclusive")
+			continue
+		}
+		// (1) one line at a time, in order, across the reconnect: the history without the DISCONNECTED marks
+		// (2) A's DISCONNECTED after all of A's invocations: history up to the first D, then what A-line events follow it
+		var noD, upToD, lateA []string
+		seenD := false
+		for _, e := range evs {
+			if e == "D" {
+				if !seenD {
+					upToD = append(upToD, e)
+				}
+				seenD = true
+				continue
+			}
+			noD = append(noD, e)
+			k, _ := strconv.Atoi(strings.Split(e, ":")[1])
+			if !seenD {
+				upToD = append(upToD, e)
+			} else if k < nA {
+				lateA = append(lateA, e)
+			}
+		}
+		rp["log"] = evs
+		c.RunCases([]Case{
+			{Desc: desc + " [order across the reconnect]", Spec: []string{"spec03 " + strings.Join(noD, ",")}, Tag: "reconnect-during-handler", Key: fmt.Sprintf("%s/%d/%d", desc, i, c.Seed), Replay: rp},
+			{Desc: desc + " [DISCONNECTED after the old connection's handlers]", Spec: []string{"spec03 " + strings.Join(append(upToD, lateA...), ",")}, Tag: "reconnect-during-handler", Key: fmt.Sprintf("%s/%d/%d/D", desc, i, c.Seed), Replay: rp},
+		})
+	}
+}
+
+// c05Teardown: the connection is torn down (Close from another goroutine, EOF from the server, or a read error)
+// while the state handler of the client's own JOIN is still at work - it is blocked queueing MODE / WHO because the
+// send queue is full and the server is not reading. Whatever the teardown does, a user handler that runs for that
+// JOIN must find the tracker reflecting it (the client is on the channel).
+func c05Teardown(c *Ctx) {
+	for i := 0; i < c.Pick(6, 60); i++ {
+		cause := c.R.Pick("close", "eof", "readerr")
+		nfg, nbg := c.R.Range(1, 3), c.R.N(3)
+		desc := fmt.Sprintf("teardown (%s) while the state handler of the own JOIN is blocked on a full send queue; %d foreground + %d background JOIN handlers", cause, nfg, nbg)
+		c.Journal(desc)
+		rp := map[string]interface{}{"op": "teardown-during-state-handler", "cause": cause, "fg": nfg, "bg": nbg}
+		lg := &obsLog{}
+		sess, err := newSession(nil, func(cn *client.Conn) {
+			cn.EnableStateTracking()
+			look := func(kind string, h int) client.HandlerFunc {
+				return func(cn *client.Conn, l *client.Line) {
+					on := false
+					if t := cn.StateTracker(); t != nil {
+						_, on = t.IsOn("#d", cn.Me().Nick)
+					}
+					lg.add(fmt.Sprintf("%s%d saw on-channel=%v", kind, h, on))
+				}
+			}
+			for h := 0; h < nfg; h++ {
+				cn.HandleFunc("JOIN", look("fg", h))
+			}
+			for h := 0; h < nbg; h++ {
+				cn.HandleBG("JOIN", look("bg", h))
+			}
+		})
+		if err != nil {
+			c.Res.Inconclusive++
+			continue
+		}
+		conn := sess.conn
+		sess.sync(5 * time.Second)
+		gate := sess.srv.GateWrites() // from now on the server does not read
+		go func() {                   // fill the send queue (these calls block once it is full; teardown releases them)
+			for k := 0; k < 40; k++ {
+				conn.Raw(fmt.Sprintf("PRIVMSG #x :fill-%d", k))
+			}
+		}()
+		time.Sleep(2 * time.Millisecond)
+		sess.srv.SendLine(":me!ident@host JOIN #d")
+		// the state handler has created the channel and now sits in Mode() / Who()
+		blocked := waitFor(func() bool { return conn.StateTracker().GetChannel("#d") != nil }, 2*time.Second)
+		time.Sleep(time.Duration(c.R.N(3)) * time.Millisecond)
+		go func() { // a closed socket fails pending writes: emulate by opening the gate once the client closed its end
+			waitFor(func() bool { return sess.srv.Closed() }, 20*time.Second)
+			for k := 0; k < 1000; k++ {
+				select {
+				case gate <- struct{}{}:
+				default:
+				}
+			}
+		}()
+		switch cause {
+		case "close":
+			go conn.Close()
+		case "eof":
+			sess.srv.EOF()
+		default:
+			sess.srv.ReadError(fmt.Errorf("injected read error"))
+		}
+		down := waitFor(func() bool { return !conn.Connected() }, 10*time.Second)
+		time.Sleep(5 * time.Millisecond)
+		sess.close()
+		lg.mu.Lock()
+		evs := append([]string(nil), lg.evs...)
+		lg.mu.Unlock()
+		c.Res.Traces++
+		c.Res.Evaluations++
+		tag := "teardown-during-state-handler/" + cause
+		if !blocked || len(evs) == 0 {
+			tag = "(trivial)"
+		}
+		c.Dist("tag:" + tag)
+		if k := fmt.Sprintf("%s/%d/%d/%d/%d", tag, nfg, nbg, i, c.Seed); tag != "(trivial)" && !c.seen[k] {
+			c.seen[k] = true
+			c.Res.Distinct++
+		}
+		if !down {
+			c.Res.Inconclusive++
+			continue
+		}
+		for _, e := range evs {
+			if strings.HasSuffix(e, "on-channel=false") {
+				c.SpecFail("spec", desc, "", "a user handler ran for the client's own JOIN but the tracker did not reflect it: "+strings.Join(evs, "; "), rp)
+				break
+			}
+		}
+	}
+}
+
 func c03(c *Ctx, prop string) {
 	n := c.Pick(12, 120)
 	for i := 0; i < n; i++ {
 		p := dispParams{Lines: c.R.Range(20, c.Pick(120, 300)), NFg: c.R.Range(1, 3), NBg: c.R.N(3), MaxRead: []int{0, 1, 7, 64}[c.R.N(4)],
-			Procs: []int{1, 2, 4, 16}[c.R.N(4)], Panics: c.R.Bool(), StuckBg: c.R.P(1, 3), DefaultRecover: c.R.P(1, 4), LongLines: c.R.P(1, 3), Seed: c.R.U64() % 1000}
+			Procs: []int{1, 2, 4, 16}[c.R.N(4)], Panics: c.R.Bool(), StuckBg: c.R.P(1, 3), DefaultRecover: c.R.P(1, 4), LongLines: c.R.P(1, 3), Seed: c.R.U64() % 1000, Prop: prop}
 		if prop == "C16" {
 			p.Panics = true
 		}
 		dispatchSession(c, p)
+	}
+	if prop == "C03" {
+		c03Reconnect(c)
+	}
+	if prop == "C05" {
+		c05Teardown(c)
 	}
 	if prop == "C16" {
 		// a handler that panics while the connection is being torn down must not stop the teardown either
